@@ -121,7 +121,11 @@ TRes ==
     /\ LET bad == \E f \in G!UserFlowsIn(Ev.seq) :
                      UserVerdict(C0.cfg, f, "res", SelectSeq(Ev.seq, LAMBDA x : x.sid = "" /\ x.flow = f), Ev.outcome) # "ok"
        IN IF bad THEN PrintT(<<"REJECT", l + 1, Ev.id, "response-walk-does-not-follow-the-graph">>) /\ FALSE ELSE TRUE
-    /\ G!CQ!Response(Ev.id) /\ UNCHANGED <<lo, hi, charged, admitted, fwlast, cur, pos, seen>>
+    \* a response walk that ended with an error may have stopped before the quota's releasing system flow ran (the slot is
+    \* then given back by expiry only, which C02's statement permits): either way is accepted for such a transaction
+    /\ \/ G!CQ!Response(Ev.id)
+       \/ (Ev.outcome = "error" /\ UNCHANGED <<now, inflight, deadline, cqlast>>)
+    /\ UNCHANGED <<lo, hi, charged, admitted, fwlast, cur, pos, seen>>
 
 TErr == Consume("err") /\ G!CQ!ProxyError(Ev.id) /\ UNCHANGED <<lo, hi, charged, admitted, fwlast, cur, pos, seen>>
 
